@@ -103,6 +103,8 @@ func (d *Driver) reply() (bool, uint32, string) {
 	switch d.policy {
 	case "nak":
 		return false, 503, "no"
+	case "long": // a Reply-Message longer than an attribute value can hold (253 octets)
+		return false, 503, strings.Repeat("m", 300)
 	default:
 		return true, 0, ""
 	}
